@@ -85,6 +85,10 @@ def _register_all():
     spi("spi.master(dw=4,div=3,aligned,loopback)", "quick", dw=4, div=3, mode="aligned", loopback=1)
     spi("spi.master(dw=4,div=2,aligned,cs_manual,ncs=2)", "quick", dw=4, div=2, mode="aligned", cs_mode=1, ncs=2)
     spi("spi.master(dw=4,div=3,raw,ncs=2)", "quick", dw=4, div=3, mode="raw", ncs=2)
+    # clk_divider is a run-time register (add_clk_divider): programmed well above / below the value the core was built with
+    spi("spi.master(dw=4,div=9,aligned,built for div=2)", "quick", dw=4, div=9, build_div=2, mode="aligned", nwords=2, lengths=(1, 3))
+    spi("spi.master(dw=4,div=2,raw,built for div=5)", "quick", dw=4, div=2, build_div=5, mode="raw", nwords=2)
+    spi("spi.master(dw=4,div=17,raw,built for div=3)", "thorough", dw=4, div=17, build_div=3, mode="raw", nwords=2, lengths=(1, 4))
     spi("spi.master(dw=4,div=2,aligned,csr,2_transfers)", "quick", dw=4, div=2, mode="aligned", csr=True, ncs=2, nwords=2, lengths=(2, 4))
     # -- SPI slave ----------------------------------------------------------------------------------
     def spis(name, tier, **kw):
